@@ -200,6 +200,12 @@ fn run_flush(a: &Args) -> Report {
         let cabs = rec.register_counter(&Key::from_name("cabs"), &MD);
         let gauge = rec.register_gauge(&Key::from_name("gg"), &MD);
         let hist = rec.register_histogram(&Key::from_name("hh"), &MD);
+        // with the small payload limit, a counter whose message can never fit: it is rejected for size at every flush and
+        // must leave the messages written after it in the same flush intact (also with length prefixes)
+        let cbig = if max_payload < 100 { Some(rec.register_counter(&Key::from_parts("cbig", vec![Label::new("pad", "x".repeat(70))]), &MD)) } else { None };
+        if let Some(c) = &cbig {
+            c.increment(1);
+        }
         // optional idle prelude (main thread, sequential): one increment, flush (delta), flush (zero -> idle)
         let mut flushes: Vec<Flush> = Vec::new();
         let mut incs: Vec<(u64, u64, u64)> = Vec::new(); // (call, ret, amount)
@@ -283,6 +289,9 @@ fn run_flush(a: &Args) -> Report {
             }
             if let Err(e) = do_flush(&mut driver, &ctx, &mut flushes) {
                 fatal = Some(e);
+            }
+            if let Some(c) = &cbig {
+                c.increment(1);
             }
             std::thread::yield_now();
         }
